@@ -116,6 +116,17 @@ def runMacro (s0 : State) (toks : List String) : State × Bool := Id.run do
       | none => ok := false
     let r := runOps s [.move (slotIdx d) A, .destroy A]
     return (r.1, ok && r.2)
+  | ["machild", d, k] =>
+    -- `t = t->lhs()` / `t = t->rhs()`: copy-assignment from a member of the node `t` points to; the end state is
+    -- that of  tmp = child; t = tmp; ~tmp  (the child survives even if `t` was the last owner of its parent)
+    match ptrOf s (slotIdx d) with
+    | some pd =>
+      match (fieldsOf (s.node? pd))[nat! k]? with
+      | some pc =>
+        let r := runOps s [.build B [slotIdx d] false [] (.old pc) false, .copyAssign (slotIdx d) B, .destroy B]
+        return (r.1, ok && r.2)
+      | none => return (s, false)
+    | none => return (s, false)
   | ["mchainremap", d, src, l, pos, cnt] =>
     -- TreeRemap{x, y, z, t}: four children; the chain runs through slot `pos` (0 = t, 1 = x, 2 = y, 3 = z)
     let r := runOps s [.copy A (slotIdx src)]
